@@ -480,6 +480,109 @@ pub fn envelope(ctx: &Ctx) -> Report {
     })
 }
 
+/// Controls attached to each kind of message a search can deliver (entry, reference, intermediate
+/// response, final result) reach the caller with the message they were attached to, through the real
+/// connection: OID, criticality, value, and recognition of the library-known types.
+pub fn attached_controls(ctx: &Ctx) -> Report {
+    use crate::lanes::c03::expect_ctrls;
+    use crate::world::{connect, item_out, res_out, runtime};
+    let n = ctx.n(10_000, 5_000_000);
+    par_cases(ctx, "attached_controls", n, ctx.secs(15, 300), |i, rng, rep| {
+        let nitems = 1 + rng.usize(6);
+        let mut plan: Vec<(Resp, Option<Vec<crate::msg::RespCtl>>)> = vec![];
+        for k in 0..nitems {
+            let m = match rng.below(3) {
+                0 => Resp::Reference(vec![format!("ldap://ref/{}.{}", i, k)]),
+                1 => Resp::Intermediate { name: Some("1.3.6.1.4.1.4203.1.9.1.4".into()), value: Some(vec![0x80, 0x00]) },
+                _ => Resp::Entry { dn: format!("e={}.{}", i, k).into_bytes(), attrs: vec![] },
+            };
+            // always at least one control, so that a dropped list is visible
+            let mut cs = gen::gen_resp_controls(rng).unwrap_or_default();
+            if cs.is_empty() {
+                cs.push(crate::msg::RespCtl { oid: "1.3.6.1.4.1.4203.1.9.1.2".into(), crit: crate::msg::CritEnc::Absent, val: Some(ber::encode_min(&ber::seq(vec![ber::enumerated(1), ber::octets(&[7u8; 16])]))) });
+            }
+            plan.push((m, Some(cs)));
+        }
+        let done_ctrls = gen::gen_resp_controls(rng);
+        plan.push((Resp::Done(Res::ok("done")), done_ctrls));
+        let rt = runtime(rng.next());
+        let plan2 = plan.clone();
+        let mut erng = rng.fork();
+        let (items, fin, note) = rt.block_on(async move {
+            let c = connect();
+            let mut ldap = c.ldap;
+            let mut server = c.server;
+            let srv = tokio::spawn(async move {
+                if let Some(w) = server.request().await {
+                    if let Ok(m) = w.msg {
+                        for (r, cs) in &plan2 {
+                            let node = resp_node(m.id, r, cs.as_deref());
+                            server.send(&Enc::random(&mut erng).to_vec(&node));
+                        }
+                    }
+                }
+                server.wait_closed().await;
+            });
+            let mut items = vec![];
+            let mut fin = None;
+            let mut note = String::new();
+            match ldap.streaming_search("dc=x", ldap3::Scope::Subtree, "(a=b)", vec!["*"]).await {
+                Ok(mut st) => {
+                    loop {
+                        match crate::world::watchdog(st.next()).await {
+                            Ok(Ok(Some(e))) => items.push(item_out(&e)),
+                            Ok(Ok(None)) => break,
+                            Ok(Err(e)) => {
+                                note = format!("next: {}", e);
+                                break;
+                            }
+                            Err(()) => {
+                                note = "next: hung".into();
+                                break;
+                            }
+                        }
+                    }
+                    fin = Some(res_out(&st.finish().await));
+                }
+                Err(e) => note = format!("start: {}", e),
+            }
+            drop(ldap);
+            srv.abort();
+            let _ = c.driver.await;
+            (items, fin, note)
+        });
+        let replay = json!({"lane":"attached_controls","case":i});
+        if !note.is_empty() {
+            viol(rep, "attached-controls", "search-failed", note, &replay);
+        }
+        for (k, (m, cs)) in plan[..plan.len() - 1].iter().enumerate() {
+            let kind = match m {
+                Resp::Reference(_) => "SearchResultReference",
+                Resp::Intermediate { .. } => "IntermediateResponse",
+                _ => "SearchResultEntry",
+            };
+            match items.get(k) {
+                None => viol(rep, "attached-controls", &format!("{}:item-missing", kind), format!("item {}", k), &replay),
+                Some(it) => {
+                    let want = expect_ctrls(cs);
+                    if it.ctrls != want {
+                        let aspect = if it.ctrls.is_empty() { "controls-dropped" } else if it.ctrls.len() != want.len() { "control-count" } else { "control-fields" };
+                        viol(rep, "attached-controls", &format!("{}:{}", kind, aspect), format!("item {}: want {:?} got {:?}", k, want, it.ctrls).chars().take(600).collect(), &replay);
+                    }
+                    rep.count(&format!("checked_{}", kind), 1);
+                }
+            }
+        }
+        if let Some(f) = fin {
+            let want = expect_ctrls(&plan.last().unwrap().1);
+            if f.ctrls != want {
+                viol(rep, "attached-controls", "SearchResultDone:control-fields", format!("want {:?} got {:?}", want, f.ctrls).chars().take(600).collect(), &replay);
+            }
+        }
+        rep.case(Some(fnv(format!("{:?}", plan).as_bytes())));
+    })
+}
+
 pub fn replay(ctx: &Ctx, v: &Value) -> Report {
     let mut rep = Report::new();
     let lane = v["lane"].as_str().unwrap_or("requests");
